@@ -120,7 +120,7 @@ func (a *arena) Out(name string, b []byte, spare int, fill byte) []byte {
 	}
 	a.track(name+".prefix", buf[:len(b)])
 	a.track(name+".guard", buf[len(b)+spare:])
-	return buf[:len(b) : len(b)+spare]
+	return buf[: len(b) : len(b)+spare]
 }
 
 // mutated returns "" or " mutated=<names>" for inputs whose bytes (or sentinels) changed during the call.
